@@ -1,6 +1,7 @@
 import Bmc.Lemmas.SessionProps
 import Bmc.Lemmas.MessageRoundTrip
 import Bmc.Lemmas.AesRoundTrip
+import Bmc.Lemmas.V2RoundTripAuth
 /-! # C03 — every packet sent in a session is authenticated, encrypted and well-formed (property theorems only)
 
 By `sendLoop_spec` (used in C10) every datagram a session transmits is `datagramOf C keys cmd counter iv`; the
@@ -67,6 +68,28 @@ theorem ith_datagram_uses_ith_draw (C : Ops) (c : Cmd) (hf : c.reqFails = false)
   simp only [List.length_map, List.length_range] at hi
   simp only [List.getD_eq_getElem?_getD, List.getElem?_map, List.getElem?_range hi, Option.map_some, Option.getD_some]
   exact iv_is_own_draw C s.keys c _ _ (by simpa [List.getD_eq_getElem?_getD] using hiv)
+
+/-- THE BMC'S VIEW, outer layer: stripping the 4-byte RMCP header and decoding the session wrapper with the
+    negotiated integrity function under K1 SUCCEEDS (the AuthCode verifies, the pad scan finds the computed pad) and
+    yields: authenticated and encrypted flags set, payload type IPMI, the BMC's session ID, sequence number
+    counter + 1, and as payload exactly the AES payload — for every command, counter, IV and lawful crypto, provided
+    the payload fits the 16-bit length field -/
+theorem wrapper_opens (C : Ops) (k : Keys) (hr : k.remoteID < 4294967296) (c : Cmd) (inb : Nat) (iv : Bytes)
+    (hlen : (aesPayload C k c iv).length < 65536) :
+    ∃ v, V2Session.decode (integMac C k.integ k.k1) ((datagramOf C k c inb iv).drop 4) = .ok v ∧
+      v.authenticated = true ∧ v.encrypted = true ∧ v.payloadType = 0 ∧ v.id = k.remoteID ∧
+      v.sequence = (inb + 1) % 4294967296 ∧ v.payload = aesPayload C k c iv := by
+  let s : V2Session := { encrypted := true, authenticated := true, id := k.remoteID, payloadType := 0
+                         sequence := (inb + 1) % 4294967296 }
+  have hwf : s.WF (aesPayload C k c iv) :=
+    ⟨by show (0 : UInt8).toNat < 64; decide, hr, by show (inb + 1) % 4294967296 < 4294967296; omega, hlen,
+     by show (0 : Nat) < 4294967296; omega, by show (0 : Nat) < 65536; omega,
+     fun _ => ⟨rfl, rfl⟩, fun h => by simp [s] at h⟩
+  have hrt := V2Session.decode_encode (integMac C k.integ k.k1) s (aesPayload C k c iv) hwf
+  have hd : (datagramOf C k c inb iv).drop 4 = (V2Session.encode (integMac C k.integ k.k1) s (aesPayload C k c iv)).2 := by
+    simp [datagramOf, attempt, initLayers, RMCP.encode, aesPayload, messageBytes, requestMessage, s]
+  rw [hd, hrt]
+  exact ⟨_, rfl, rfl, rfl, rfl, rfl, rfl, rfl⟩
 
 example : (requestMessage { fn := 0x2c, cmd := 2, body := 0xdc, req := [1, 2, 3] }).WF :=
   ⟨by decide, by decide, by decide, by decide, by decide, by decide, by decide, by decide⟩
